@@ -650,6 +650,52 @@ func swallowed(kind string) bool {
 
 const swallowKey = "unknown.read-drops-scalar-read-errors|UA 0b0001ffffffff00"
 
+// topFields cuts a stream into its top-level fields with the strict walker (nil if it does not walk).
+func topFields(b []byte) [][]byte {
+	var out [][]byte
+	pos := 0
+	for pos < len(b) && b[pos] != 0 {
+		if len(b)-pos < 3 {
+			return nil
+		}
+		var sink []byte
+		end, k := strict(b, pos+3, b[pos], 1<<20, &sink)
+		if k != "" {
+			return nil
+		}
+		out = append(out, b[pos:end])
+		pos = end
+	}
+	return out
+}
+
+// shrinkUA looks for a single top-level field of a failing well-formed stream that fails alone.
+func shrinkUA(bin string, stream []byte) []byte {
+	fs := topFields(stream)
+	if len(fs) < 2 {
+		return stream
+	}
+	var lines []string
+	var cands [][]byte
+	for _, f := range fs {
+		c := append(append([]byte{}, f...), 0)
+		cands = append(cands, c)
+		lines = append(lines, "UA "+hex.EncodeToString(c))
+	}
+	ans, err := runUA(bin, lines)
+	if err != nil {
+		return stream
+	}
+	best := stream
+	for i, c := range cands {
+		fields, rest, defect := strictStream(c)
+		if defect == "" && ans[i] != fmt.Sprintf("ok %s %d w:ok %s", hexOrDash(fields), rest, hexOrDash(fields)) && len(c) < len(best) {
+			best = c
+		}
+	}
+	return best
+}
+
 // runPkg generates n cases, runs them, records correspondence lines and oracle verdicts.
 func runPkg(repo, work string, r *vl.Rng, n int, out *vl.Out) error {
 	bin, err := buildUA(work, repo)
@@ -691,6 +737,7 @@ func runPkg(repo, work string, r *vl.Rng, n int, out *vl.Out) error {
 	if err != nil {
 		return err
 	}
+	shrunk := 0
 	for i, c := range cases {
 		ans := answers[i]
 		out.Case(lines[i], ans, true)
@@ -725,8 +772,18 @@ func runPkg(repo, work string, r *vl.Rng, n int, out *vl.Out) error {
 			out.Count("a.oracle.wellformed")
 			want := fmt.Sprintf("ok %s %d w:ok %s", hexOrDash(fields), rest, hexOrDash(fields))
 			if ans != want {
-				out.Fail(vl.OracleFail{Key: lines[i], What: "tie (a): Append+Write of well-formed unknown fields does not reproduce them byte for byte, in order",
-					Input: map[string]string{"op": lines[i], "class": c.class}, Expected: want, Observed: ans})
+				op, obs := lines[i], ans
+				if shrunk < 5 {
+					shrunk++
+					if sm := shrinkUA(bin, c.stream); len(sm) < len(c.stream) {
+						if a2, err := runUA(bin, []string{"UA " + hex.EncodeToString(sm)}); err == nil {
+							f2, r2, _ := strictStream(sm)
+							op, obs, want = "UA "+hex.EncodeToString(sm), a2[0], fmt.Sprintf("ok %s %d w:ok %s", hexOrDash(f2), r2, hexOrDash(f2))
+						}
+					}
+				}
+				out.Fail(vl.OracleFail{Key: op, What: "tie (a): Append+Write of well-formed unknown fields does not reproduce them byte for byte, in order",
+					Input: map[string]string{"op": op, "class": c.class, "found_as": lines[i]}, Expected: want, Observed: obs})
 			}
 			continue
 		}
